@@ -133,7 +133,7 @@ inline std::vector<Frame> decode_stream(const std::vector<uint8_t> &s, size_t ma
 			cur.clear(); esc = false; dangling = false; any_esc = false; last_was_esc_byte = false; in = true; begin = i + 1;
 			continue;
 		}
-		if (!in && cur.empty()) { begin = i; }
+		if (!in) continue;   // bytes before the first delimiter of the stream belong to no frame
 		if (b == ESC) {
 			if (esc) dangling = true;   // FD FD : unspecified
 			esc = true; any_esc = true;
